@@ -200,7 +200,11 @@ func (en *env) eval(e Expr) (any, error) {
 		} else if n.n != 1 {
 			return nil, execErr("IN: scalar against a set of %d columns", n.n)
 		}
-		return b2u(n.keys[valueKey(x)] != n.Not), nil
+		in, err := n.contains(x)
+		if err != nil {
+			return nil, err
+		}
+		return b2u(in != n.Not), nil
 	case *Call:
 		return en.evalCall(n)
 	case *Ident:
